@@ -968,3 +968,15 @@ package mqtt
 //@ requires c != nil
 //@ ensures[C18,C10] err == nil ==> client != nil && rdinv(client) && rdmaps(client) && client.readConn == nil && client.bufr == nil
 //@ ensures[C18] err != nil ==> client == nil
+
+// Ping: one ping at a time; a second one is refused with ErrMax without blocking and without a byte written;
+// the packet is the two bytes of PINGREQ. (The hand-over of the slot between two concurrent callers after a
+// failed write, F7, is a matter of interleavings and not decided here.)
+//@ func mqtt.(*Client).Ping -> err
+//@ requires[C10] !rdr(c)
+//@ requires writable(c) && c.pingAck != nil && !closed(c.pingAck) && cap(c.pingAck) == 1
+//@ recvinv done(v): !denied(v) && !Is(v, ErrMax)
+//@ at[C09] call write#1: assert len(p) == 2 && p[0] == 192 && p[1] == 0 && len(c.pingAck) == 1
+//@ ensures[C11,C14,C17] old(len(c.pingAck)) == 1 ==> err != nil && Is(err, ErrMax) && forall(k, wire_len(k) == old(wire_len(k))) && len(c.pingAck) == 1 && qat(c.pingAck, 0) == old(qat(c.pingAck, 0))
+//@ ensures[C14] err != nil && Is(err, ErrMax) ==> forall(k, wire_len(k) == old(wire_len(k)))
+//@ ensures[C14] err != nil ==> !denied(err)
